@@ -345,3 +345,342 @@ Section ModelRoutes.
     eapply (ref_routes_all E dt l vv j t1 t2 a1 a2); eauto.
   Qed.
 End ModelRoutes.
+
+(** ** the value does not depend on non-null wrappers or on the item-to-list flag, only
+    acceptance does (same transport on both sides) *)
+Section IvalInd.
+  Variable P : ival -> Prop.
+  Hypothesis HNull : P INull.
+  Hypothesis HInt : forall z, P (IInt z).
+  Hypothesis HFloat : forall d, P (IFloat d).
+  Hypothesis HString : forall s, P (IString s).
+  Hypothesis HBool : forall b, P (IBool b).
+  Hypothesis HEnum : forall n, P (IEnum n).
+  Hypothesis HList : forall l, Forall P l -> P (IList l).
+  Hypothesis HObj : forall kvs, Forall (fun p => P (snd p)) kvs -> P (IObject kvs).
+  Hypothesis HVarVal : forall g, P (IVarVal g).
+  Hypothesis HVarAbsent : P IVarAbsent.
+  Hypothesis HInvalid : P IInvalid.
+  Fixpoint ival_ind' (v : ival) : P v :=
+    match v with
+    | INull => HNull
+    | IInt z => HInt z
+    | IFloat d => HFloat d
+    | IString s => HString s
+    | IBool b => HBool b
+    | IEnum n => HEnum n
+    | IList l => HList l ((fix go (l : list ival) : Forall P l :=
+                             match l with [] => Forall_nil _ | x :: r => Forall_cons _ (ival_ind' x) (go r) end) l)
+    | IObject kvs => HObj kvs ((fix go (l : list (name * ival)) : Forall (fun p => P (snd p)) l :=
+                                  match l with [] => Forall_nil _ | p :: r => Forall_cons _ (ival_ind' (snd p)) (go r) end) kvs)
+    | IVarVal g => HVarVal g
+    | IVarAbsent => HVarAbsent
+    | IInvalid => HInvalid
+    end.
+End IvalInd.
+
+Section NnInsensitive.
+  Variable E : env.
+  Variable dt : bytes -> option bytes.
+  Variable tr : transport.
+  Notation rc := (ref_coerce E dt tr).
+
+  Lemma named_ignores_flag v n w1 w2 : rc v (StNamed n) w1 = rc v (StNamed n) w2.
+  Proof. rewrite !rc_eq. destruct v; reflexivity. Qed.
+
+  Theorem ref_nn_insensitive : forall v t1 t2 w1 w2 g1 g2,
+    strip_nn t1 = strip_nn t2 -> rc v t1 w1 = Some g1 -> rc v t2 w2 = Some g2 -> g1 = g2.
+  Proof.
+    induction v as [|z|d|s|b|n|items IH|kvs _|g| |] using ival_ind'; intros t1 t2 w1 w2 g1 g2 S H1 H2.
+    - rewrite rc_eq in H1, H2. destruct (is_nonnull t1); destruct (is_nonnull t2); congruence.
+    - revert H1 H2. apply (nonlist_routes E dt tr tr); try reflexivity; auto.
+      intros n w1' w2' c1 c2 C1 C2. rewrite (named_ignores_flag _ _ w1' w2') in C1. congruence.
+    - revert H1 H2. apply (nonlist_routes E dt tr tr); try reflexivity; auto.
+      intros n w1' w2' c1 c2 C1 C2. rewrite (named_ignores_flag _ _ w1' w2') in C1. congruence.
+    - revert H1 H2. apply (nonlist_routes E dt tr tr); try reflexivity; auto.
+      intros n w1' w2' c1 c2 C1 C2. rewrite (named_ignores_flag _ _ w1' w2') in C1. congruence.
+    - revert H1 H2. apply (nonlist_routes E dt tr tr); try reflexivity; auto.
+      intros n w1' w2' c1 c2 C1 C2. rewrite (named_ignores_flag _ _ w1' w2') in C1. congruence.
+    - revert H1 H2. apply (nonlist_routes E dt tr tr); try reflexivity; auto.
+      intros n' w1' w2' c1 c2 C1 C2. rewrite (named_ignores_flag _ _ w1' w2') in C1. congruence.
+    - (* lists *)
+      revert H1 H2. apply (list_routes E dt tr tr); auto.
+      intros t1' t2' c1 c2 St. clear S. revert c1 c2.
+      induction IH as [|x r Hx _ IHr]; intros c1 c2 O1 O2; simpl in *.
+      + congruence.
+      + destruct (rc x t1' false) eqn:F1; try discriminate. destruct (opt_map (fun x => rc x t1' false) r) eqn:R1; try discriminate.
+        destruct (rc x t2' false) eqn:F2; try discriminate. destruct (opt_map (fun x => rc x t2' false) r) eqn:R2; try discriminate.
+        inversion O1; inversion O2; subst. f_equal; eauto.
+    - revert H1 H2. apply (nonlist_routes E dt tr tr); try reflexivity; auto.
+      intros n w1' w2' c1 c2 C1 C2. rewrite (named_ignores_flag _ _ w1' w2') in C1. congruence.
+    - rewrite rc_eq in H1, H2. destruct (is_nil g); [destruct (is_nonnull t1); destruct (is_nonnull t2)|]; congruence.
+    - rewrite rc_eq in H1. discriminate.
+    - rewrite rc_eq in H1. discriminate.
+  Qed.
+End NnInsensitive.
+
+(** ** a variable nested inside a literal versus the literal with the value written in its place *)
+Fixpoint subst_var (v : name) (r : lit) (L : lit) : lit :=
+  match L with
+  | LVar n => if bytes_eqb n v then r else L
+  | LList vs => LList (map (subst_var v r) vs)
+  | LObject fs => LObject (map (fun p => (fst p, subst_var v r (snd p))) fs)
+  | _ => L
+  end.
+
+Section Nested.
+  Variable E : env.
+  Variable dt : bytes -> option bytes.
+  Hypothesis HE : env_ok E = true.
+  Variable defs : list vardef.
+  Variable vv : cvars.
+  Variable v : name.
+  Variable r : lit.
+  Variable j : jval.
+  Variable def : vardef.
+  Variable c : gval.
+  Notation rcl := (ref_coerce E dt TLiteral).
+  Notation rcj := (ref_coerce E dt TJson).
+  Hypothesis Hdef : find_def v defs = Some def.
+  Hypothesis Hvv : aget v vv = Some c.
+  Hypothesis Hc : rcj (abs_json j) (vd_type def) true = Some c.
+  Hypothesis Hsame : same_value r j.
+
+  Lemma usage_strip t ld : var_usage_ok E def t ld = true -> strip_nn t = strip_nn (vd_type def).
+  Proof.
+    unfold var_usage_ok. intro U. apply andb_true_iff in U as [_ U].
+    destruct t as [n|t'|t']; try (apply compatible_strip; exact U).
+    destruct (is_nonnull (vd_type def)).
+    - apply compatible_strip; exact U.
+    - apply andb_true_iff in U as [_ U]. simpl. apply compatible_strip; exact U.
+  Qed.
+
+  Lemma hole t w ld g1 g2 :
+    var_usage_ok E def t ld = true ->
+    rcl (IVarVal c) t w = Some g2 -> rcl (abs_lit vv r) t w = Some g1 -> g1 = g2.
+  Proof.
+    intros U H2 H1.
+    assert (g2 = c).
+    { rewrite rc_eq in H2. destruct (is_nil c) eqn:Z; [|congruence].
+      destruct c; try discriminate. destruct (is_nonnull t); congruence. }
+    subst g2. eapply (ref_routes_all E dt r vv j t (vd_type def) w true); eauto.
+    apply (usage_strip _ _ U).
+  Qed.
+
+  Lemma same_value_not_var l j0 : same_value l j0 -> forall n, l <> LVar n.
+  Proof. intros S n ->. simpl in S. exact S. Qed.
+
+  Lemma is_absent_subst x : is_absent (abs_lit vv (subst_var v r x)) = is_absent (abs_lit vv x).
+  Proof.
+    destruct x; simpl; auto.
+    - destruct (bytes_eqb n v) eqn:B; auto. apply bytes_eqb_eq in B; subst. rewrite Hvv. simpl.
+      destruct r; simpl in *; try reflexivity; try contradiction. destruct (f64_of_decimal m k); reflexivity.
+  Qed.
+
+  Lemma list_at_named tr items n w : ref_coerce E dt tr (IList items) (StNamed n) w = None.
+  Proof.
+    rewrite rc_eq. destruct (aget n E) as [[k|vals|fields h]|]; auto.
+    - destruct k; reflexivity.
+    - destruct tr; reflexivity.
+  Qed.
+
+  Definition nested_ok (L : lit) : Prop := forall t w ld g1 g2,
+    usage_ok all_fixed E defs L (Some t) ld = true ->
+    rcl (abs_lit vv L) t w = Some g2 -> rcl (abs_lit vv (subst_var v r L)) t w = Some g1 -> g1 = g2.
+
+  Lemma items_nested vs t' : Forall nested_ok vs ->
+    forallb (fun x => usage_ok all_fixed E defs x (Some t') false) vs = true ->
+    forall c1 c2,
+      opt_map (fun x => rcl x t' false) (map (abs_lit vv) vs) = Some c2 ->
+      opt_map (fun x => rcl x t' false) (map (abs_lit vv) (map (subst_var v r) vs)) = Some c1 -> c1 = c2.
+  Proof.
+    induction 1 as [|x r0 Hx _ IHr]; intros U c1 c2 O2 O1; simpl in O1, O2.
+    - congruence.
+    - simpl in U. apply andb_true_iff in U as [Ux U].
+      destruct (rcl (abs_lit vv x) t' false) eqn:F2; try discriminate.
+      destruct (opt_map _ (map (abs_lit vv) r0)) eqn:R2; try discriminate.
+      destruct (rcl (abs_lit vv (subst_var v r x)) t' false) eqn:F1; try discriminate.
+      destruct (opt_map _ (map (abs_lit vv) (map (subst_var v r) r0))) eqn:R1; try discriminate.
+      inversion O1; inversion O2; subst. f_equal.
+      + eapply Hx; eauto.
+      + eapply IHr; eauto.
+  Qed.
+
+  Lemma map_fst_substp (fs : list (name * lit)) :
+    map fst (map (fun p : name * lit => (fst p, subst_var v r (snd p))) fs) = map fst fs.
+  Proof. induction fs as [|[k x] r0 IH]; simpl; congruence. Qed.
+
+  Lemma forallb_known_substp (fs : list (name * lit)) (fields : list (name * in_def)) :
+    forallb (fun p : name * lit => ahas (fst p) fields) (map (fun p : name * lit => (fst p, subst_var v r (snd p))) fs)
+    = forallb (fun p : name * lit => ahas (fst p) fields) fs.
+  Proof. induction fs as [|[k x] r0 IH]; simpl; congruence. Qed.
+
+  Lemma aget_substp (fs : list (name * lit)) k :
+    aget k (map (fun p : name * lit => (fst p, subst_var v r (snd p))) fs) = option_map (subst_var v r) (aget k fs).
+  Proof. induction fs as [|[k' x] r0 IH]; simpl; auto. destruct (bytes_eqb k k'); auto. Qed.
+
+  Lemma object_nested fs fields h n w g1 g2 :
+    aget n E = Some (TInput fields h) ->
+    Forall (fun p => nested_ok (snd p)) fs ->
+    forallb (fun p : name * lit =>
+               match aget (fst p) fields with
+               | Some fd => usage_ok all_fixed E defs (snd p) (Some (in_type fd)) (field_loc_default fd)
+               | None => usage_ok all_fixed E defs (snd p) None false
+               end) fs = true ->
+    rcl (IObject (map (fun p => match p with (k, l) => (k, abs_lit vv l) end) fs)) (StNamed n) w = Some g2 ->
+    rcl (IObject (map (fun p => match p with (k, l) => (k, abs_lit vv l) end)
+                      (map (fun p : name * lit => (fst p, subst_var v r (snd p))) fs))) (StNamed n) w = Some g1 ->
+    g1 = g2.
+  Proof.
+    intros Hn IH U H2 H1. rewrite rc_eq, Hn in H1, H2.
+    rewrite map_fst_abs_lit, forallb_known_abs_lit in H1, H2.
+    rewrite map_fst_substp, forallb_known_substp in H1.
+    destruct (dup_names (map fst fs) || negb (forallb (fun p : name * lit => ahas (fst p) fields) fs)); try discriminate.
+    match type of H1 with match ?F with _ => _ end = _ => destruct F as [m1|] eqn:F1; try discriminate end.
+    match type of H2 with match ?F with _ => _ end = _ => destruct F as [m2|] eqn:F2; try discriminate end.
+    assert (m1 = m2); [|subst; congruence].
+    eapply obj_fold_routes; [|exact F1|exact F2].
+    intros fname fd Hin. rewrite !subs_lookup, aget_substp.
+    destruct (aget fname fs) as [x|] eqn:G; cbn [option_map]; auto.
+    split.
+    - rewrite <- !is_absent_abs_lit. apply is_absent_subst.
+    - intros c1 c2 C1 C2.
+      rewrite Forall_forall in IH. specialize (IH (fname, x) (aget_In _ _ _ G)). simpl in IH.
+      rewrite forallb_forall in U. specialize (U (fname, x) (aget_In _ _ _ G)). simpl in U.
+      rewrite (nodup_aget fields fname fd (fields_nodup E HE _ _ _ Hn) Hin) in U.
+      eapply IH; eauto.
+  Qed.
+
+  Theorem ref_nested : forall L, nested_ok L.
+  Proof.
+    induction L as [n|z|m k|s|b| |n|vs IHl|fs IHf] using lit_ind'; intros t w ld g1 g2 U H2 H1;
+      try (cbn [subst_var] in H1; congruence).
+    - (* a variable *)
+      cbn [subst_var] in H1. destruct (bytes_eqb n v) eqn:B; [|congruence].
+      apply bytes_eqb_eq in B; subst n. cbn [abs_lit] in H2. rewrite Hvv in H2.
+      cbn [usage_ok] in U. rewrite Hdef in U. eapply hole; eauto.
+    - (* a list literal *)
+      cbn [subst_var abs_lit] in H1, H2. revert w ld g1 g2 U H2 H1.
+      induction t as [n|t' IHt|t' IHt]; intros w ld g1 g2 U H2 H1.
+      + rewrite list_at_named in H2. discriminate.
+      + rewrite rc_eq in H1, H2. cbn [usage_ok nullable_type] in U.
+        destruct (opt_map (fun x => rcl x t' false) (map (abs_lit vv) vs)) as [c2|] eqn:O2; try discriminate.
+        destruct (opt_map (fun x => rcl x t' false) (map (abs_lit vv) (map (subst_var v r) vs))) as [c1|] eqn:O1; try discriminate.
+        inversion H1; inversion H2; subst. f_equal. eapply items_nested; eauto.
+      + rewrite rc_nn in H1, H2 by reflexivity. apply (IHt w ld g1 g2 U H2 H1).
+    - (* an object literal *)
+      cbn [subst_var abs_lit] in H1, H2. revert w ld g1 g2 U H2 H1.
+      induction t as [n|t' IHt|t' IHt]; intros w ld g1 g2 U H2 H1.
+      + cbn [usage_ok leaf_type] in U. cbn [all_fixed fix_item_object] in U.
+        destruct (aget n E) as [[k|vals|fields h]|] eqn:Hn.
+        * rewrite rc_eq, Hn in H2. destruct k; discriminate.
+        * rewrite rc_eq, Hn in H2. discriminate.
+        * eapply object_nested; eauto.
+        * rewrite rc_eq, Hn in H2. discriminate.
+      + apply rc_wrap in H1 as (c1 & C1 & ->); try reflexivity. apply rc_wrap in H2 as (c2 & C2 & ->); try reflexivity.
+        f_equal. f_equal. apply (IHt true ld c1 c2); auto.
+      + rewrite rc_nn in H1, H2 by reflexivity. apply (IHt w ld g1 g2 U H2 H1).
+  Qed.
+End Nested.
+
+Lemma subst_nodup v r : lit_nodup r = true -> forall L, lit_nodup L = true -> lit_nodup (subst_var v r L) = true.
+Proof.
+  intros Hr. induction L as [n|z|m k|s|b| |n|vs IHl|fs IHf] using lit_ind'; intro W; simpl; auto.
+  - destruct (bytes_eqb n v); auto.
+  - simpl in W. rewrite forallb_forall in *. intros x Hx. apply in_map_iff in Hx as (y & <- & Hy).
+    rewrite Forall_forall in IHl. apply IHl; auto.
+  - simpl in W. apply andb_true_iff in W as [Wd W]. rewrite map_map. simpl.
+    change (map (fun x : name * lit => fst x) fs) with (map fst fs). rewrite Wd. simpl.
+    rewrite forallb_forall in *. intros x Hx. apply in_map_iff in Hx as (y & <- & Hy). simpl.
+    rewrite Forall_forall in IHf. apply IHf; auto.
+Qed.
+
+Lemma closed_abs_lit vv : forall l, lit_vars l = [] -> abs_lit vv l = abs_lit [] l.
+Proof.
+  induction l as [n|z|m k|s|b| |n|vs IHl|fs IHf] using lit_ind'; intro C; simpl in *; auto; try discriminate.
+  - f_equal. apply map_ext_in. intros x Hx. rewrite Forall_forall in IHl. apply IHl; auto.
+    destruct (lit_vars x) eqn:Lx; auto. exfalso.
+    assert (In n (flat_map lit_vars vs)) by (apply in_flat_map; exists x; split; auto; rewrite Lx; left; auto).
+    rewrite C in H. contradiction.
+  - f_equal. apply map_ext_in. intros [k x] Hx. rewrite Forall_forall in IHf. f_equal. apply (IHf (k, x) Hx).
+    destruct (lit_vars x) eqn:Lx; auto. exfalso.
+    assert (In n (flat_map (fun p : name * lit => lit_vars (snd p)) fs))
+      by (apply in_flat_map; exists (k, x); split; auto; simpl; rewrite Lx; left; auto).
+    rewrite C in H. contradiction.
+Qed.
+
+Section ModelRoutes2.
+  Variable E : env.
+  Variable dt : bytes -> option bytes.
+  Hypothesis HE : env_ok E = true.
+
+  (** a variable nested anywhere inside a literal, versus the value written in its place *)
+  Theorem route_nested defs vv v r j def c L t a ld g1 g2 :
+    find_def v defs = Some def -> aget v vv = Some c ->
+    coerce_var_value all_fixed E dt j (vd_type def) true = Ok c ->
+    same_value r j -> jval_ok j = true -> lit_nodup L = true ->
+    usage_ok all_fixed E defs L (Some t) ld = true ->
+    coerce_literal all_fixed E dt vv L t a = Ok g2 ->
+    coerce_literal all_fixed E dt vv (subst_var v r L) t a = Ok g1 ->
+    g1 = g2.
+  Proof.
+    intros Hd Hv Hc S W N U H2 H1.
+    pose proof (var_value_refines all_fixed E dt eq_refl eq_refl j W (vd_type def) true) as Rc. rewrite Hc in Rc. simpl in Rc.
+    pose proof (literal_refines all_fixed E dt HE eq_refl eq_refl vv L N t a) as R2. rewrite H2 in R2. simpl in R2.
+    pose proof (literal_refines all_fixed E dt HE eq_refl eq_refl vv (subst_var v r L)
+                  (subst_nodup v r (same_value_nodup r j S W) L N) t a) as R1. rewrite H1 in R1. simpl in R1.
+    eapply (ref_nested E dt HE defs vv v r j def c Hd Hv Rc S L); eauto.
+  Qed.
+
+  (** a variable with a runtime value is handed over as it is *)
+  Lemma variable_returns_value vv v c t a g :
+    aget v vv = Some c -> coerce_literal all_fixed E dt vv (LVar v) t a = Ok g -> g = c.
+  Proof.
+    intros Hv H. rewrite cl_eq in H. cbn iota in H. rewrite Hv in H.
+    destruct (fix_null_var all_fixed && is_nil c && is_nonnull t); congruence.
+  Qed.
+
+  (** omitted in favour of the variable's default: CoerceVariableValues coerces the default literal
+      at the variable's type; writing the same literal at the argument gives the same value *)
+  Theorem route_variable_default vv l tv t a c g1 :
+    lit_vars l = [] -> lit_nodup l = true -> strip_nn t = strip_nn tv ->
+    coerce_literal all_fixed E dt [] l tv true = Ok c ->
+    coerce_literal all_fixed E dt vv l t a = Ok g1 ->
+    g1 = c.
+  Proof.
+    intros C N S Hc H1.
+    pose proof (literal_refines all_fixed E dt HE eq_refl eq_refl [] l N tv true) as Rc. rewrite Hc in Rc. simpl in Rc.
+    pose proof (literal_refines all_fixed E dt HE eq_refl eq_refl vv l N t a) as R1. rewrite H1 in R1. simpl in R1.
+    rewrite (closed_abs_lit vv l C) in R1.
+    eapply ref_nn_insensitive; eauto.
+  Qed.
+
+  (** omitted in favour of the argument's default: the declared default is handed over *)
+  Theorem route_argument_default argdefs args vv x d dv m :
+    has_dup (map fst argdefs) = false -> dup_names (map fst args) = false ->
+    In (x, d) argdefs -> in_default d = Some dv ->
+    match aget x args with Some (LVar vn) => ahas vn vv | Some _ => true | None => false end = false ->
+    coerce_argument_values all_fixed E dt argdefs args vv = Ok m ->
+    aget x m = Some (default_value dv).
+  Proof.
+    intros Hd Da Hin D Hv H. unfold coerce_argument_values in H.
+    set (av := fold_left (fun m (a : name * lit) => mset (fst a) (snd a) m) args []) in H.
+    assert (Av : aget x av = aget x args).
+    { unfold av. rewrite aget_fold_mset_nodup by auto. destruct (aget x args); reflexivity. }
+    set (Inv := fun (done : list (name * in_def)) (m : list (name * gval)) =>
+                  In (x, d) done -> aget x m = Some (default_value dv)).
+    assert (I : Inv ([] ++ argdefs) m).
+    { eapply (fold_res_inv2 _ (fun _ => eq_refl) (fun _ => eq_refl) Inv); [| |exact H].
+      - intros [].
+      - intros pre [aname d'] suf m1 m2 Heq Hi Hs Hx. simpl in Heq.
+        apply in_app_or in Hx as [Hx|[Hx|[]]].
+        + (* already stored; this step writes another key *)
+          assert (Ne : aname <> x).
+          { rewrite Heq in Hd. intro; subst. apply (nodup_prefix _ _ _ Hd (x, d) Hx). reflexivity. }
+          apply arg_step_cases in Hs as [(dv' & _ & ->)|[(l & c & _ & _ & ->)|(-> & _)]];
+            try (rewrite aget_mset_other by auto); auto.
+        + inversion Hx; subst aname d'. cbn [arg_step] in Hs. cbv zeta in Hs. rewrite Av, Hv, D in Hs.
+          inversion Hs; subst. apply aget_mset_same. }
+    apply I. simpl. exact Hin.
+  Qed.
+End ModelRoutes2.
